@@ -216,7 +216,9 @@ def circuit_is_isomorphic(circuit1, circuit2):
             return False
 
         # For ControlledPairOperationBase, compare the control_type and target_type
-        if isinstance(op1, ControlledPairOperationBase):
+        if isinstance(
+            op1, (ControlledPairOperationBase, ClassicalControlledPairOperationBase)
+        ):
             if (
                 op1.control_type != op2.control_type
                 or op1.target_type != op2.target_type
@@ -260,7 +262,9 @@ def _create_edge_control_target_attr(operation, reg_type, reg):
     :return: control_target attribute. Can be 'c', 't' or None
     :rtype: str or nothing
     """
-    if isinstance(operation, ControlledPairOperationBase):
+    if isinstance(
+        operation, (ControlledPairOperationBase, ClassicalControlledPairOperationBase)
+    ):
         if reg_type == operation.control_type and reg == operation.control:
             return "c"
         if reg_type == operation.target_type and reg == operation.target:
